@@ -160,6 +160,7 @@ package corerad
 //@   at call Delay(sg, dl, fn) when !addrIsMulticast(ip): assert U2 [C07]: 0 <= dl && dl < ms(500)
 //@   at call Delay(sg, dl, fn) when addrIsMulticast(ip): assert R1 [C06]: ghost.now + dl >= ghost.lastFire + a.minDelayBetweenRAs ; assert R2 [C06]: ghost.now + dl <= ghost.trigger + a.minDelayBetweenRAs && ghost.now + dl >= ghost.trigger ; ghost.lastFire = ghost.now + dl
 //@   opt safety [C06]
+//@   opt stablecapture [C06]
 
 // ---------------------------------------------------------------------------
 // listener.go: Listen (C09 delivery, C10 tear-down discipline, C18 zone)
